@@ -51,7 +51,7 @@ CHECKS["C19"] = dict(
          "with the copied length; lookups return an entry only on the equal edge of the name (and type) comparison and each typed getter asks "
          "for its own type; add deletes the same name and copies before it releases, clone/add_all go through add, equal compares count, "
          "name+type, length and bytes, del unlinks before destroying; the path component array is bounded. Not decided: equivalence with a "
-         "finite map over all operation sequences, canonical print/parse round trip.",
+         "finite map over all operation sequences, canonical print/parse round trip. (R5) the index component parser range-tests the number it converts (strto* saturation value or ERANGE, or a bounded digit loop).",
     note=TRUSTED,
     technique="who-may-write/value-origin queries + dominance checks + bounded-write dataflow",
     design="3/C19")
@@ -63,7 +63,7 @@ CHECKS["C03"] = dict(
          "test sees the errno of the failing call (logging is derived errno-transparent from its save/restore bracket on every run); the "
          "length validated is the length sent (no unguarded narrowing); UX send is one send(2) with MSG_NOSIGNAL|MSG_EOR; and blocking "
          "xcm_send does not report failure for an accepted message because its wait failed (known finding K3). and never offers the caller's buffer to the transport again after it was accepted; Not decided: exactly-once "
-         "delivery (needs both endpoints and the schedule). (R8) every failing path of btcp_send/btls_send with errno possibly other than EAGAIN has put the connection into a terminal state (the framing layer keeps the buffered frame on such a failure). (R9) a receive op of a framing transport that reads from the layer below has attempted the flush of the accepted frame on that path (xcm.h: buffered data is re-attempted by finish, send and receive).",
+         "delivery (needs both endpoints and the schedule). (R8) every failing path of btcp_send/btls_send with errno possibly other than EAGAIN has put the connection into a terminal state (the framing layer keeps the buffered frame on such a failure). (R9) a receive op of a framing transport that reads from the layer below has attempted the flush of the accepted frame on that path (xcm.h: buffered data is re-attempted by finish, send and receive). (R3 also) every successful exit of the blocking path has called the socket's finish after the acceptance.",
     note=TRUSTED + " send(2) on SOCK_SEQPACKET is all-or-nothing; mbuf_set copies into XCM-owned storage.",
     technique="path-sensitive typestate exploration with inlining, errno-source tracking, value-range dataflow",
     design="3/C03")
@@ -112,7 +112,7 @@ CHECKS["C06"] = dict(
          "discovers the condition; every store of a sticky errno is a constant or an errno captured right after the call observed failing "
          "(errno-source tracking, logging derived transparent); a connect attempt is retried only after its failure reason was recorded; "
          "the closed state is stored only under the documented conditions; end-of-stream concluded from a failed write is reported "
-         "(known finding K5, four sites). A read's 0 counts as end-of-stream only if bytes were asked for (zero-capacity receive answered before recv/SSL_read; defect F18 repaired). Not decided: which call observes a failure first under real timing; the errno the kernel produces. (R8) the framing transports' finish goes through the sub-socket's finish before the connection state is reported.",
+         "(known finding K5, four sites). A read's 0 counts as end-of-stream only if bytes were asked for (zero-capacity receive answered before recv/SSL_read; defect F18 repaired). Not decided: which call observes a failure first under real timing; the errno the kernel produces. (R8) the framing transports' finish goes through the sub-socket's finish before the connection state is reported. (R3 also) a helper that stores its parameter as the sticky reason is judged at its call sites; an errno the function assigned itself is not a failing call's errno.",
     note=TRUSTED,
     technique="state-set abstract interpretation with inlining + errno-source tracking + condition classification",
     design="3/C06")
@@ -219,7 +219,7 @@ CHECKS["C09"] = dict(
          "enable_hostname_validation is consistent with one of the six documented invalid combinations, refusals say EINVAL, and finalize precedes the "
          "context lookup in connect, server and accept; (R7) load_ssl_ctx installs trusted CAs/CRLs iff given and allows partial chains only without CRLs; "
          "hostname flags NO_WILDCARDS|ALWAYS_CHECK_SUBJECT. (R5) every policy field is inherited unconditionally (a copy may depend on tests of the same field only); (R8) names are appended to the socket's peer-name list only where the list was absent: explicit tls.peer_names are the whole set. Not decided: the outcome matrix against generated certificates (that is the behaviour), "
-         "OpenSSL's chain building, extended key usage checks (inside OpenSSL). (R9) every context lookup passes the four credential items of the socket whose ssl_ctx receives the result; (R10) each default credential file has its own default and per-namespace template. (R8 also) a configured set of peer names is never empty. (R11) every element store of the string-list container is followed by a store of its count (tls.peer_names is inherited as a clone); (R12) = C18.R12.",
+         "OpenSSL's chain building, extended key usage checks (inside OpenSSL). (R9) every context lookup passes the four credential items of the socket whose ssl_ctx receives the result; (R10) each default credential file has its own default and per-namespace template. (R8 also) a configured set of peer names is never empty. (R11) every element store of the string-list container is followed by a store of its count (tls.peer_names is inherited as a clone); (R12) = C18.R12. (R13) the by-file and the by-value setter of tls.tc and of tls.crl both record the explicit-configuration mark that finalize_tls_conf reads.",
     note=TRUSTED + " Numeric values of the OpenSSL flag macros are taken from its stable ABI.",
     technique="path exploration + exact folding of the policy function over all inputs + control dependence / must-pass + field coverage + path-fact analysis",
     design="3/C09")
